@@ -32,7 +32,7 @@ import (
 
 func init() {
 	register(&Prop{
-		ID: "C13", Gen: genC13, GenRace: genC13, Run: runC13, Quick: 2500, Thorough: 100000, RaceQuick: 250, RaceThorough: 6000,
+		ID: "C13", Gen: genC13, GenRace: genC13, Run: runC13, Quick: 2500, Thorough: 300000, RaceQuick: 250, RaceThorough: 12000,
 		Real: []string{"pkg/intermediate AggregationProcess: AggregateMsgByFlowKey, ForAllExpiredFlowRecordsDo, GetRecords, GetNumFlows, GetExpiryFromExpirePriorityQueue, Start/Stop worker pool", "pkg/entities records"},
 		Stub: []string{"wall clock (synctest bubble)", "goroutine scheduling (sim layer: seeded baton scheduler with preemptions at instrumented statements; race layer: Go scheduler with seeded Gosched perturbation)"},
 		Rule: "2-4 tasks issue up to 14 operations per concurrent phase (ingest on 2-3 keys with per-node streams owned by one task each, expiry scans, GetRecords, GetNumFlows, GetExpiry...) in 1-3 phases separated by clock advances; the invoke/return history is checked for linearizability against the sequential model with porcupine; non-trivial = at least 2 tasks with overlapping operations on a shared key; distinct = distinct event-log hash (sim layer) or plan seed (race layer)",
